@@ -6,33 +6,109 @@ import Props.Lemmas.C14_Stmt
 
 namespace Pypyr.PyNs
 
-/-! ### `!py` (arrangement NOW): only the throw-away own dict `scratch` and the heap can change -/
+/-! ### the table of namespace objects -/
 
-/-- Everything of the state that is not the own dict of the throw-away namespace or the heap. -/
-def St.evalRest (st : St) : Env × Env × Env × Env × Env × Env :=
-  (st.ctx, st.imps, st.hidden, st.ns, st.bi, st.saved)
+theorem nsGet_nsSet_same (t : NsTab) (k : Nat) (r : NsRec) : nsGet (nsSet t k r) k = some r := by
+  induction t with
+  | nil => simp [nsSet, nsGet]
+  | cons p rest ih =>
+    obtain ⟨k', r'⟩ := p
+    simp only [nsSet]
+    split
+    · simp [nsGet]
+    · rename_i h; simp [nsGet, h, ih]
 
-theorem inv_evalFixed (t : Env × Env × Env × Env × Env × Env) :
-    Inv .evalFixed (fun st => st.evalRest = t) where
+theorem nsGet_nsSet_other (t : NsTab) (k j : Nat) (r : NsRec) (h : k ≠ j) : nsGet (nsSet t k r) j = nsGet t j := by
+  induction t with
+  | nil => simp [nsSet, nsGet, h]
+  | cons p rest ih =>
+    obtain ⟨k', r'⟩ := p
+    simp only [nsSet]
+    split
+    · rename_i h2; subst h2; simp [nsGet, h]
+    · rename_i h2; simp only [nsGet, ih]
+
+@[simp] theorem St.own_setOwn (st : St) (e : Env) : (st.setOwn e).own = e := by
+  simp only [St.own, St.setOwn, nsGet_nsSet_same]
+  split <;> rfl
+
+@[simp] theorem St.own_enter (st : St) (a : Arr) (o : Env) : (st.enter a o).own = o := by
+  simp only [St.own, St.enter, nsGet_nsSet_same]
+
+@[simp] theorem St.setOwn_ctx (st : St) (e : Env) : (st.setOwn e).ctx = st.ctx := rfl
+@[simp] theorem St.setOwn_imps (st : St) (e : Env) : (st.setOwn e).imps = st.imps := rfl
+@[simp] theorem St.setOwn_bi (st : St) (e : Env) : (st.setOwn e).bi = st.bi := rfl
+@[simp] theorem St.setOwn_heap (st : St) (e : Env) : (st.setOwn e).heap = st.heap := rfl
+@[simp] theorem St.setOwn_cur (st : St) (e : Env) : (st.setOwn e).cur = st.cur := rfl
+
+@[simp] theorem St.enter_ctx (st : St) (a : Arr) (o : Env) : (st.enter a o).ctx = st.ctx := rfl
+@[simp] theorem St.enter_imps (st : St) (a : Arr) (o : Env) : (st.enter a o).imps = st.imps := rfl
+@[simp] theorem St.enter_bi (st : St) (a : Arr) (o : Env) : (st.enter a o).bi = st.bi := rfl
+@[simp] theorem St.enter_heap (st : St) (a : Arr) (o : Env) : (st.enter a o).heap = st.heap := rfl
+@[simp] theorem St.enter_hidden (st : St) (a : Arr) (o : Env) : (st.enter a o).hidden = st.hidden := rfl
+@[simp] theorem St.enter_saved (st : St) (a : Arr) (o : Env) : (st.enter a o).saved = st.saved := rfl
+@[simp] theorem St.enter_cur (st : St) (a : Arr) (o : Env) : (st.enter a o).cur = st.next := rfl
+@[simp] theorem St.retire_ctx (st : St) (k c : Nat) : (st.retire k c).ctx = st.ctx := rfl
+@[simp] theorem St.retire_imps (st : St) (k c : Nat) : (st.retire k c).imps = st.imps := rfl
+@[simp] theorem St.retire_bi (st : St) (k c : Nat) : (st.retire k c).bi = st.bi := rfl
+@[simp] theorem St.retire_heap (st : St) (k c : Nat) : (st.retire k c).heap = st.heap := rfl
+@[simp] theorem St.retire_hidden (st : St) (k c : Nat) : (st.retire k c).hidden = st.hidden := rfl
+@[simp] theorem St.retire_saved (st : St) (k c : Nat) : (st.retire k c).saved = st.saved := rfl
+@[simp] theorem St.retire_cur (st : St) (k c : Nat) : (st.retire k c).cur = c := rfl
+@[simp] theorem St.setCur_ctx (st : St) (k : Nat) : (st.setCur k).ctx = st.ctx := rfl
+@[simp] theorem St.setCur_imps (st : St) (k : Nat) : (st.setCur k).imps = st.imps := rfl
+@[simp] theorem St.setCur_bi (st : St) (k : Nat) : (st.setCur k).bi = st.bi := rfl
+@[simp] theorem St.setCur_heap (st : St) (k : Nat) : (st.setCur k).heap = st.heap := rfl
+@[simp] theorem St.setCur_cur (st : St) (k : Nat) : (st.setCur k).cur = k := rfl
+@[simp] theorem St.setCur_nss (st : St) (k : Nat) : (st.setCur k).nss = st.nss := rfl
+
+/-- The own dict of the running code after a switch to namespace object `j`. -/
+theorem St.own_setCur (st : St) (j : Nat) (r : NsRec) (h : nsGet st.nss j = some r) :
+    (st.setCur j).own = r.own := by
+  simp only [St.own, St.setCur, h]
+
+/-- Namespace objects other than the running code's are not touched by its own-dict writes. -/
+theorem St.nsGet_setOwn_other (st : St) (e : Env) (j : Nat) (h : st.cur ≠ j) :
+    nsGet (st.setOwn e).nss j = nsGet st.nss j := by
+  simp only [St.setOwn]; exact nsGet_nsSet_other _ _ _ _ h
+
+/-! ### `!py` (arrangement NOW) and py steps: only namespace objects' own dicts, `cur` and the heap
+    can change (a py step's `save` aside) -/
+
+/-- Everything of the state that is not a namespace object, the current-namespace pointer or the
+    heap. -/
+def St.evalRest (st : St) : Env × Env × Env × Env × Env :=
+  (st.ctx, st.imps, st.hidden, st.bi, st.saved)
+
+theorem inv_evalFixed (t : Env × Env × Env × Env × Env) :
+    Inv (fun st => st.evalRest = t) where
   heap := fun _ _ hp => hp
-  sName := fun _ _ _ hp => hp
-  sGlobal := fun _ _ _ hp => hp
+  cur := fun _ _ hp => hp
+  own := fun _ _ hp => hp
 
-/-- Any expression, in any scope, from any state, with any fuel: under
-    `n = _EvalNamespace(ctx, imps); eval(src, n, n)` context, imports, the per-Context namespace
-    object's raw slot, builtins (and the py-step fields) are untouched. -/
+/-- Any expression, in any scope, from any state, with any fuel, under either live arrangement
+    (also: whatever function / generator objects of earlier runs it calls or pulls): context,
+    imports, the per-Context namespace object's raw slot, builtins and the save log are untouched. -/
+theorem evalExpr_live_rest {a : Arr} (ha : a.live) (fuel : Nat) (sc : Scope) (e : Expr) (st : St) :
+    (evalExpr a fuel sc e st).2.evalRest = st.evalRest :=
+  (eval_inv (inv_evalFixed st.evalRest) fuel).1 a ha sc e st rfl
+
 theorem evalExpr_evalFixed_rest (fuel : Nat) (sc : Scope) (e : Expr) (st : St) :
     (evalExpr .evalFixed fuel sc e st).2.evalRest = st.evalRest :=
-  (eval_inv (inv_evalFixed st.evalRest) fuel).1 sc e st rfl
+  evalExpr_live_rest Arr.live_evalFixed fuel sc e st
+
+theorem pullGen_live_rest {a : Arr} (ha : a.live) (fuel : Nat) (r : Nat) (st : St) :
+    (pullGen a fuel r st).2.evalRest = st.evalRest :=
+  (eval_inv (inv_evalFixed st.evalRest) fuel).2.2.2.2.2.2.2.1 a ha r st rfl
 
 /-- A state is determined by its fields. -/
-theorem St.ext' (s t : St) (h1 : s.evalRest = t.evalRest) (h2 : s.scratch = t.scratch)
-    (h3 : s.heap = t.heap) : s = t := by
+theorem St.ext' (s t : St) (h1 : s.evalRest = t.evalRest) (h2 : s.nss = t.nss)
+    (h3 : s.heap = t.heap) (h4 : s.cur = t.cur) (h5 : s.next = t.next) : s = t := by
   cases s; cases t
   simp only [St.evalRest, Prod.mk.injEq] at h1
-  simp only [] at h2 h3
-  obtain ⟨a, b, c, d, e, f⟩ := h1
-  subst a b c d e f h2 h3
+  simp only [] at h2 h3 h4 h5
+  obtain ⟨a, b, c, d, e⟩ := h1
+  subst a b c d e h2 h3 h4 h5
   rfl
 
 /-- Under the arrangement NOW the module-level lookup (LOAD_NAME) and the nested-scope lookup
@@ -40,13 +116,13 @@ theorem St.ext' (s t : St) (h1 : s.evalRest = t.evalRest) (h2 : s.scratch = t.sc
 theorem loadName_evalFixed (st : St) (x : String) :
     loadName .evalFixed st x = loadGlobal .evalFixed st x := by
   simp only [loadName, loadGlobal, localsGetItem, globalsGetItem, globalsRaw]
-  cases st.scratch.get? x <;> cases st.ctx.get? x <;> cases st.imps.get? x <;> rfl
+  cases st.own.get? x <;> cases st.ctx.get? x <;> cases st.imps.get? x <;> rfl
 
 theorem loadGlobal_evalFixed (st : St) (x : String) :
     loadGlobal .evalFixed st x =
-      orElse (st.scratch.get? x) (orElse (st.ctx.get? x) (orElse (st.imps.get? x) (st.bi.get? x))) := by
+      orElse (st.own.get? x) (orElse (st.ctx.get? x) (orElse (st.imps.get? x) (st.bi.get? x))) := by
   simp only [loadGlobal, globalsGetItem]
-  cases st.scratch.get? x <;> cases st.ctx.get? x <;> cases st.imps.get? x <;> rfl
+  cases st.own.get? x <;> cases st.ctx.get? x <;> cases st.imps.get? x <;> rfl
 
 theorem ownInit_get? (x : String) :
     ownInit.get? x = if "__builtins__" = x then some builtinsTok else Option.none := by
@@ -62,26 +138,20 @@ theorem ownInit_get?_of_ne (x : String) (h : x ≠ "__builtins__") : ownInit.get
 def SavedSince (K : List String) (st0 st : St) : Prop :=
   ∃ log : Env, st.saved = st0.saved ++ log ∧ st.ctx = st0.ctx.update log ∧
     (∀ k ∈ Env.keys log, k ∈ K) ∧
-    st.imps = st0.imps ∧ st.hidden = st0.hidden ∧ st.scratch = st0.scratch ∧ st.bi = st0.bi
+    st.imps = st0.imps ∧ st.hidden = st0.hidden ∧ st.bi = st0.bi
 
 theorem SavedSince.refl (K : List String) (st : St) : SavedSince K st st :=
-  ⟨[], by simp, rfl, by simp [Env.keys], rfl, rfl, rfl, rfl⟩
+  ⟨[], by simp, rfl, by simp [Env.keys], rfl, rfl, rfl⟩
 
-theorem invS_exec (K : List String) (st0 : St) : InvS .exec K (SavedSince K st0) where
+theorem invS_exec (K : List String) (st0 : St) : InvS K (SavedSince K st0) where
   base := {
     heap := fun _ _ hp => hp
-    sName := fun _ _ _ hp => hp
-    sGlobal := fun _ _ _ hp => hp }
-  del := by
-    intro st x st1 h hp
-    simp only [delName] at h
-    split at h
-    · cases h; exact hp
-    · cases h
+    cur := fun _ _ hp => hp
+    own := fun _ _ hp => hp }
   save := by
     intro st d hd hp
-    obtain ⟨log, h1, h2, h3, h4, h5, h6, h7⟩ := hp
-    refine ⟨log ++ d, ?_, ?_, ?_, h4, h5, h6, h7⟩
+    obtain ⟨log, h1, h2, h3, h4, h5, h7⟩ := hp
+    refine ⟨log ++ d, ?_, ?_, ?_, h4, h5, h7⟩
     · simp only [doSave, h1, List.append_assoc]
     · simp only [doSave, h2, Env.update_append]
     · intro k hk
@@ -94,16 +164,16 @@ theorem invS_exec (K : List String) (st0 : St) : InvS .exec K (SavedSince K st0)
     heap changes only by the block's `save(...)` calls. -/
 theorem execBlock_exec_saved (fuel : Nat) (sc : Scope) (b : List Stmt) (st : St) :
     SavedSince (blockSaveKeys b) st (execBlock .exec fuel sc b st).2 :=
-  (invS_exec (blockSaveKeys b) st).execBlock' fuel sc b st (fun _ hk => hk) (SavedSince.refl _ st)
+  (invS_exec (blockSaveKeys b) st).execBlock' Arr.live_exec fuel sc b st (fun _ hk => hk) (SavedSince.refl _ st)
 
 /-- Expressions alone never `save`. -/
 theorem evalExpr_exec_saved (fuel : Nat) (sc : Scope) (e : Expr) (st : St) :
     SavedSince [] st (evalExpr .exec fuel sc e st).2 :=
-  (eval_inv (invS_exec [] st).base fuel).1 sc e st (SavedSince.refl _ st)
+  (eval_inv (invS_exec [] st).base fuel).1 .exec Arr.live_exec sc e st (SavedSince.refl _ st)
 
 theorem SavedSince.nil {st0 st : St} (h : SavedSince [] st0 st) :
     st.ctx = st0.ctx ∧ st.saved = st0.saved ∧ st.imps = st0.imps ∧ st.bi = st0.bi := by
-  obtain ⟨log, h1, h2, h3, h4, _, _, h7⟩ := h
+  obtain ⟨log, h1, h2, h3, h4, _, h7⟩ := h
   have : log = [] := by
     cases log with
     | nil => rfl
@@ -155,15 +225,22 @@ theorem load_of_declGlobal (a : Arr) (sc : Scope) (st : St) (x : String)
 theorem runEval_name (old : Bool) (fuel : Nat) (st : St) (x : String) :
     (runEval old (fuel + 1) st (.name x)).1 =
       optRes (loadName (if old then .evalOld else .evalFixed)
-        { st with scratch := if old then [] else ownInit } x) := by
+        (st.enter (if old then .evalOld else .evalFixed) (if old then [] else ownInit)) x) := by
   simp [runEval, evalExpr, load, chainLoad, Expr.compWalrus]
 
+/-- The lookups of a state look at the own dict of the CURRENT namespace object, the context, the
+    imports, the per-Context raw slot and the builtins — not at the heap. -/
+theorem loadGlobal_heap (a : Arr) (st : St) (h : List Cell) (x : String) :
+    loadGlobal a { st with heap := h } x = loadGlobal a st x := rfl
+
 /-- `(lambda: x)()` written where no enclosing function/comprehension scope exists (the top level
-    of a `!py` expression or of a py block), any state: the read inside the lambda is LOAD_GLOBAL. -/
+    of a `!py` expression or of a py block), any state: the read inside the lambda is LOAD_GLOBAL on
+    the namespace object of the running code. -/
 theorem lambda_reads_global (a : Arr) (fuel : Nat) (sc : Scope) (st : St) (x : String)
-    (hc : sc.chain = []) (hb : sc.base ≤ st.heap.length) :
+    (hc : sc.chain = []) :
     (evalExpr a (fuel + 3) sc (.call (.lam [] (.name x)) []) st).1 = optRes (loadGlobal a st x) := by
-  simp [evalExpr, evalList, callFn, runBody, callee, St.alloc, load, chainLoad, fnDeclared,
-    bodyAssigned, Expr.assigned, loadGlobal, globalsGetItem, hc, Nat.not_lt.2 hb]
+  simp [evalExpr, evalList, callFn, runBody, callee, target, St.alloc, St.setCur, load, chainLoad, fnDeclared,
+    bodyAssigned, Expr.assigned, hc]
+  rfl
 
 end Pypyr.PyNs
